@@ -7,7 +7,7 @@ git merge --no-edit work/$n 2>&1 | tail -3
 # evidence files are rewritten by the integrator's own runs: keep ours on conflict
 for f in $(git status --short | grep '^UU evidence/\|^AA evidence/' | cut -c4-); do git checkout --ours $f; git add $f; done
 # props/*.json: both sides usually appended to the same long strings
-for f in $(git status --short | grep '^UU props/' | cut -c4-); do python3 tools/mergejson.py $f && git add $f; done
+for f in $(git status --short | grep '^UU props/' | cut -c4-); do (python3 tools/mergejson3.py $f || python3 tools/mergejson.py $f) && git add $f; done
 if ! git status --short | grep -q '^UU\|^AA'; then git diff --cached --quiet || git commit -qm "Merge branch 'work/$n'"; fi
 if git status --short | grep -q '^UU\|^AA'; then echo "CONFLICTS:"; git status --short | grep '^UU\|^AA'; exit 3; fi
 cd /repo
